@@ -269,6 +269,8 @@ static void rls_ls_run(Json& js, vh::Rng& rng) {
     const double lam = 0.9 + 0.1 * rng.unif(), load = std::pow(10.0, -2 + 6 * rng.unif());
     RlsFilterR f(len, lam, load);
     const int K = (int)rng.range(1, 3 * len + 4);
+    const int silent_head = rng.range(0, 2) == 0 ? (int)rng.range(1, len + 2) : 0;
+    const int gap_at = rng.range(0, 2) == 0 ? (int)rng.range(1, std::max(1, K - 1)) : -1;
     std::vector<double> xs, ds;
     int done = 0;
     while (done < K) {
@@ -276,6 +278,12 @@ static void rls_ls_run(Json& js, vh::Rng& rng) {
         arr_real x(fl), d(fl);
         for (int i = 0; i < fl; ++i) {
             x[i] = rng.gauss(), d[i] = rng.gauss();
+            if (silent_head > 0 && done + i < silent_head) {
+                x[i] = 0;   // leading silence: all-zero regressors must still be forgotten with lambda
+            }
+            if (gap_at >= 0 && done + i >= gap_at && done + i < gap_at + len + 1) {
+                x[i] = 0;   // a silent gap at least as long as the filter
+            }
             xs.push_back(x[i]);
             ds.push_back(d[i]);
         }
